@@ -129,6 +129,7 @@ func E1Tables() *an.Tables {
 			{ID: "Workers.count read-modify-write", From: "read:Workers.count", To: "write:Workers.count", Lock: "Workers.mutex", Why: "worker accounting is atomic"},
 			{ID: "Workers enqueue->spawn", Func: "(*Workers).Call", From: "write:Workers.queue", To: "go:(*Workers).worker", Lock: "Workers.mutex", Why: "top-up decided in the hold of the enqueue"},
 			{ID: "Workers target->spawn", Func: "(*Workers).Call", From: "write:Workers.target", To: "go:(*Workers).worker", Lock: "Workers.mutex", Why: "top-up uses the target set by this call"},
+			{ID: "worker exit-decision->decrement", Func: "(*Workers).worker*", From: "read:Workers.queue", To: "write:Workers.count", Lock: "Workers.mutex", Why: "a worker leaves in the hold in which it decided to leave (a Call enqueuing in between would count it as available)"},
 			{ID: "worker head->dequeue", Func: "(*Workers).worker", From: "read:Workers.queue[]", To: "write:Workers.queue", Lock: "Workers.mutex", Why: "the item taken is the one removed"},
 			// Worker (C17)
 			{ID: "Worker idle-check->start do", Func: "(*Worker).Do", From: "read:Worker.stop", To: "go:(*Worker).do", Lock: "Worker.mu", Why: "an instance starts only when none exists"},
